@@ -29,6 +29,8 @@ import (
 	"fmt"
 	"go/ast"
 	"go/token"
+	"os"
+	"path/filepath"
 	"sort"
 	"strings"
 
@@ -162,9 +164,20 @@ type skFunc struct {
 	tracked  map[string]bool
 	typeName map[string]bool // package-level type names (conversions)
 	nonNil   map[string]bool // error variables known non-nil here (inside `if x != nil`)
-	decls    map[string]*ast.FuncDecl // every tracked function
+	decls    map[string]*ast.FuncDecl // every function of the package, "Recv.name" / "name"
 	hasErr   bool            // the last result of the function is an error
+	g        *skGen          // shared state: instances of followed (untracked) callees
+	self     map[string]bool // parameters bound to the caller's receiver (followed callees)
+	boolVars map[string]string // local := condition over option flags (no error test): its Gallina term
+	retClass string            // followed callee: class of the freshly constructed action it returns ...
+	retInh   []string          // ... and the options that action inherits from the receiver
+	retBad   bool              // ... unless its returns disagree
+	lits     int             // closures invoked in place, numbered
 }
+
+// isSelf: the identifier denotes the action the function runs on (its receiver, or, in a
+// followed package function, the parameter the caller's receiver was passed for)
+func (f *skFunc) isSelf(n string) bool { return n == f.recv || f.self[n] }
 
 func (f *skFunc) classOf(e ast.Expr) string {
 	switch v := e.(type) {
@@ -265,6 +278,12 @@ func (f *skFunc) expr(e ast.Expr) []skNode {
 
 func (f *skFunc) call(c *ast.CallExpr) []skNode {
 	var out []skNode
+	// a closure invoked in place: its body runs here, its returns leave the closure only;
+	// it shares the variables of the enclosing function
+	if fl, ok := c.Fun.(*ast.FuncLit); ok {
+		out = append(out, f.exprs(c.Args)...)
+		return append(out, f.closure(fl)...)
+	}
 	// receiver expression, then arguments, then the call itself
 	if s, ok := c.Fun.(*ast.SelectorExpr); ok {
 		out = append(out, f.expr(s.X)...)
@@ -294,6 +313,9 @@ func (f *skFunc) call(c *ast.CallExpr) []skNode {
 			}
 			return out
 		}
+		if fd := f.decls[n]; fd != nil {
+			return append(out, f.follow(n, "", fd, c)...)
+		}
 		return append(out, skUnknown("call of %s", n))
 	case *ast.SelectorExpr:
 		cl := f.classOf(fn.X)
@@ -313,7 +335,7 @@ func (f *skFunc) call(c *ast.CallExpr) []skNode {
 			return append(out, skNode{Op: "Call", A: skelEffects[key]})
 		case f.tracked[key]:
 			id, isIdent := fn.X.(*ast.Ident)
-			if isIdent && id.Name != f.recv && skelActionClass[cl] {
+			if isIdent && !f.isSelf(id.Name) && skelActionClass[cl] {
 				// a freshly constructed action: its own options
 				inh := append([]string(nil), f.inherit[id.Name]...)
 				sort.Strings(inh)
@@ -340,6 +362,12 @@ func (f *skFunc) call(c *ast.CallExpr) []skNode {
 			return append(out, skNode{Op: "Fn", A: key, B: arg})
 		case skelIgnored[key]:
 			return out
+		}
+		if fd := f.decls[key]; fd != nil {
+			if id, isIdent := fn.X.(*ast.Ident); isIdent && !f.isSelf(id.Name) && skelActionClass[cl] {
+				return append(out, skUnknown("untracked method %s of a nested action", key))
+			}
+			return append(out, f.follow(key, cl, fd, c)...)
 		}
 		return append(out, skUnknown("call of %s", key))
 	}
@@ -465,6 +493,10 @@ func (f *skFunc) cond1(e ast.Expr) (string, bool) {
 				}
 			}
 		}
+	case *ast.Ident:
+		if s, ok := f.boolVars[v.Name]; ok {
+			return s, true
+		}
 	case *ast.SelectorExpr:
 		if cl := f.classOf(v.X); skelActionClass[cl] && skelFlags[v.Sel.Name] {
 			return `(CFlag "` + v.Sel.Name + `")`, true
@@ -487,6 +519,30 @@ func (f *skFunc) impliesNonNil(e ast.Expr) []string {
 		case token.LAND:
 			return append(f.impliesNonNil(v.X), f.impliesNonNil(v.Y)...)
 		case token.NEQ:
+			if id, ok := v.Y.(*ast.Ident); ok && id.Name == "nil" {
+				if x, ok := v.X.(*ast.Ident); ok && f.errVars[x.Name] {
+					return []string{x.Name}
+				}
+			}
+		}
+	}
+	return nil
+}
+
+// impliesNonNilWhenFalse: the error variables x for which the NEGATION of the condition implies x != nil
+func (f *skFunc) impliesNonNilWhenFalse(e ast.Expr) []string {
+	switch v := e.(type) {
+	case *ast.ParenExpr:
+		return f.impliesNonNilWhenFalse(v.X)
+	case *ast.UnaryExpr:
+		if v.Op == token.NOT {
+			return f.impliesNonNil(v.X)
+		}
+	case *ast.BinaryExpr:
+		switch v.Op {
+		case token.LOR:
+			return append(f.impliesNonNilWhenFalse(v.X), f.impliesNonNilWhenFalse(v.Y)...)
+		case token.EQL:
 			if id, ok := v.Y.(*ast.Ident); ok && id.Name == "nil" {
 				if x, ok := v.X.(*ast.Ident); ok && f.errVars[x.Name] {
 					return []string{x.Name}
@@ -579,8 +635,16 @@ func (f *skFunc) bind(lhs, rhs []ast.Expr) {
 			if c := f.classOf(rhs[0]); c != "" {
 				f.class[id.Name] = c
 				delete(f.errVars, id.Name)
-			} else if id.Name != f.recv {
+			} else if !f.isSelf(id.Name) {
 				delete(f.class, id.Name)
+			}
+			// the result of a followed helper that constructs an action
+			if ce, ok := rhs[0].(*ast.CallExpr); ok && len(lhs) == 1 {
+				if sm, ok := f.g.summ[f.g.callInst[ce]]; ok {
+					f.class[id.Name] = sm.class
+					f.inherit[id.Name] = append([]string(nil), sm.inh...)
+					delete(f.errVars, id.Name)
+				}
 			}
 		}
 		return
@@ -590,8 +654,43 @@ func (f *skFunc) bind(lhs, rhs []ast.Expr) {
 			delete(f.errVars, id.Name)
 			if c := f.classOf(rhs[i]); c != "" {
 				f.class[id.Name] = c
-			} else if id.Name != f.recv {
+			} else if !f.isSelf(id.Name) {
 				delete(f.class, id.Name)
+			}
+		}
+	}
+}
+
+// noteReturn: does the function hand back an action it constructed (a followed helper such as
+// `func (u *Upgrade) atomicRollback(v int) *Rollback`)?  Then the caller's variable gets the
+// class and the inherited options, as if the construction stood in the caller.
+func (f *skFunc) noteReturn(r *ast.ReturnStmt) {
+	if len(r.Results) == 1 {
+		if id, ok := r.Results[0].(*ast.Ident); ok && !f.isSelf(id.Name) && skelActionClass[f.class[id.Name]] {
+			inh := append([]string(nil), f.inherit[id.Name]...)
+			sort.Strings(inh)
+			if f.retClass != "" && (f.retClass != f.class[id.Name] || strings.Join(f.retInh, ",") != strings.Join(inh, ",")) {
+				f.retBad = true
+			}
+			f.retClass, f.retInh = f.class[id.Name], inh
+			return
+		}
+	}
+	f.retBad = true
+}
+
+// bindBool: `x := <condition over option flags>` lets a later `if x` read as that condition
+// (options do not change during a run); any other assignment to x forgets it
+func (f *skFunc) bindBool(lhs, rhs []ast.Expr) {
+	for i, l := range lhs {
+		id, ok := l.(*ast.Ident)
+		if !ok {
+			continue
+		}
+		delete(f.boolVars, id.Name)
+		if len(lhs) == len(rhs) && id.Name != "_" {
+			if s, ok := f.cond1(rhs[i]); ok && !strings.Contains(s, "CErr") {
+				f.boolVars[id.Name] = s
 			}
 		}
 	}
@@ -612,7 +711,7 @@ func (f *skFunc) stmt(s ast.Stmt) []skNode {
 		// option of a freshly constructed action: x.Flag = <receiver>.Flag | false
 		if len(v.Lhs) == 1 && len(v.Rhs) == 1 {
 			if sel, ok := v.Lhs[0].(*ast.SelectorExpr); ok {
-				if id, ok := sel.X.(*ast.Ident); ok && id.Name != f.recv && skelActionClass[f.class[id.Name]] && skelFlags[sel.Sel.Name] {
+				if id, ok := sel.X.(*ast.Ident); ok && !f.isSelf(id.Name) && skelActionClass[f.class[id.Name]] && skelFlags[sel.Sel.Name] {
 					switch r := v.Rhs[0].(type) {
 					case *ast.Ident:
 						if r.Name != "false" {
@@ -620,7 +719,7 @@ func (f *skFunc) stmt(s ast.Stmt) []skNode {
 						}
 					case *ast.SelectorExpr:
 						rid, ok := r.X.(*ast.Ident)
-						if ok && rid.Name == f.recv && r.Sel.Name == sel.Sel.Name {
+						if ok && f.isSelf(rid.Name) && r.Sel.Name == sel.Sel.Name {
 							f.inherit[id.Name] = append(f.inherit[id.Name], sel.Sel.Name)
 						} else {
 							out = append(out, skUnknown("option %s set from %s", sel.Sel.Name, skExprName(r)))
@@ -632,6 +731,7 @@ func (f *skFunc) stmt(s ast.Stmt) []skNode {
 			}
 		}
 		f.bind(v.Lhs, v.Rhs)
+		f.bindBool(v.Lhs, v.Rhs)
 		out = f.pure(out, v.Lhs)
 		// x := y copies what is known about the error variable y
 		if len(v.Lhs) == len(v.Rhs) {
@@ -680,12 +780,14 @@ func (f *skFunc) stmt(s ast.Stmt) []skNode {
 			if len(vs.Values) > 0 {
 				f.bind(lhs, vs.Values)
 			}
+			f.bindBool(lhs, vs.Values)
 			out = f.pure(out, lhs)
 		}
 		return out
 	case *ast.BlockStmt:
 		return f.block(v.List)
 	case *ast.ReturnStmt:
+		f.noteReturn(v)
 		return append(f.exprs(v.Results), skNode{Op: f.returnKind(v)})
 	case *ast.IfStmt:
 		out := f.stmt(v.Init)
@@ -702,7 +804,16 @@ func (f *skFunc) stmt(s ast.Stmt) []skNode {
 			f.nonNil[x] = saved[x]
 		}
 		if v.Else != nil {
+			disproved := f.impliesNonNilWhenFalse(v.Cond)
+			savedEl := map[string]bool{}
+			for _, x := range disproved {
+				savedEl[x] = f.nonNil[x]
+				f.nonNil[x] = true
+			}
 			n.El = f.stmt(v.Else)
+			for _, x := range disproved {
+				f.nonNil[x] = savedEl[x]
+			}
 		}
 		return append(out, n)
 	case *ast.ForStmt:
@@ -719,6 +830,7 @@ func (f *skFunc) stmt(s ast.Stmt) []skNode {
 			if id, ok := kv.(*ast.Ident); ok {
 				delete(f.errVars, id.Name)
 				delete(f.class, id.Name)
+				delete(f.boolVars, id.Name)
 			}
 		}
 		return append(out, skNode{Op: "Loop", Th: f.block(v.Body.List)})
@@ -761,6 +873,11 @@ func (f *skFunc) stmt(s ast.Stmt) []skNode {
 		return skAlternativesC(alts, conds)
 	case *ast.SwitchStmt:
 		out := f.stmt(v.Init)
+		if v.Tag == nil {
+			if chain, ok := f.switchChain(v.Body.List); ok {
+				return append(out, chain...)
+			}
+		}
 		out = append(out, f.expr(v.Tag)...)
 		return append(out, f.clauses(v.Body.List)...)
 	case *ast.TypeSwitchStmt:
@@ -769,6 +886,74 @@ func (f *skFunc) stmt(s ast.Stmt) []skNode {
 		return append(out, f.clauses(v.Body.List)...)
 	}
 	return []skNode{skUnknown("statement %T", s)}
+}
+
+// switchChain: `switch { case a: A; case b, c: B; default: D }` read as
+// `if a {A} else if b || c {B} else {D}` (conditions and what they prove about error variables
+// as in an if statement).  Only when the default clause, if any, is the last one, no case
+// expression contains a call with effects and no clause ends in fallthrough.
+func (f *skFunc) switchChain(l []ast.Stmt) ([]skNode, bool) {
+	for i, cs := range l {
+		c := cs.(*ast.CaseClause)
+		if c.List == nil && i != len(l)-1 {
+			return nil, false
+		}
+		if len(f.exprs(c.List)) > 0 {
+			return nil, false
+		}
+		if n := len(c.Body); n > 0 {
+			if b, ok := c.Body[n-1].(*ast.BranchStmt); ok && b.Tok == token.FALLTHROUGH {
+				return nil, false
+			}
+		}
+	}
+	return f.switchChainFrom(l), true
+}
+
+func (f *skFunc) switchChainFrom(l []ast.Stmt) []skNode {
+	if len(l) == 0 {
+		return nil
+	}
+	c := l[0].(*ast.CaseClause)
+	body := func() []skNode {
+		b := f.block(c.Body)
+		for i := range b {
+			if b[i].Op == "Branch" && b[i].A == "break" {
+				b[i] = skUnknown("break inside switch")
+			}
+		}
+		return b
+	}
+	if c.List == nil {
+		return body()
+	}
+	// the clause's condition: the disjunction of its expressions
+	var cond ast.Expr = c.List[0]
+	for _, e := range c.List[1:] {
+		cond = &ast.BinaryExpr{X: cond, Op: token.LOR, Y: e}
+	}
+	n := skNode{Op: "If", Cond: f.cond(cond)}
+	proved := f.impliesNonNil(cond)
+	saved := map[string]bool{}
+	for _, x := range proved {
+		saved[x] = f.nonNil[x]
+		f.nonNil[x] = true
+	}
+	n.Th = body()
+	for _, x := range proved {
+		f.nonNil[x] = saved[x]
+	}
+	disproved := f.impliesNonNilWhenFalse(cond)
+	savedEl := map[string]bool{}
+	for _, x := range disproved {
+		savedEl[x] = f.nonNil[x]
+		f.nonNil[x] = true
+	}
+	n.El = f.switchChainFrom(l[1:])
+	for _, x := range disproved {
+		f.nonNil[x] = savedEl[x]
+	}
+	return []skNode{n}
 }
 
 func (f *skFunc) clauses(l []ast.Stmt) []skNode {
@@ -1001,6 +1186,181 @@ func skPrintNode(b *strings.Builder, n skNode, ind string) {
 	}
 }
 
+// ---- followed callees ----------------------------------------------------------------------------
+
+// skGen: what the functions of one run share.  A call of a function or method of the same
+// package that is in none of the classification tables is FOLLOWED: the callee's body is
+// translated like a tracked one (receiver class from the call, parameter classes from the
+// parameter types or, when the type says nothing, from the arguments) and becomes an extra
+// entry of the table, which the caller refers to by `Fn`.  The normal form of
+// Engine/SkeletonNorm.v inlines every Fn, so the table compares equal whether an effect sits
+// in the caller or in a helper.  A callee without any effect is dropped like an ignored call.
+type skGen struct {
+	events   map[string]string
+	tracked  map[string]bool
+	pkgs     map[string]*skPkg  // directory -> declarations
+	inst     map[string][]skNode // instance name -> body (nil while in progress)
+	done     map[string]bool
+	order    []string
+	callInst map[*ast.CallExpr]string // followed call -> instance name
+	summ     map[string]skSummary     // instance -> the action it constructs and returns, if any
+}
+
+type skSummary struct {
+	class string
+	inh   []string
+}
+
+type skPkg struct {
+	decls     map[string]*ast.FuncDecl
+	typeNames map[string]bool
+}
+
+func skHasErrResult(ft *ast.FuncType) bool {
+	if rs := ft.Results; rs != nil && len(rs.List) > 0 {
+		if id, ok := rs.List[len(rs.List)-1].Type.(*ast.Ident); ok && id.Name == "error" {
+			return true
+		}
+	}
+	return false
+}
+
+// newFunc prepares the translation of one declaration; recvClass overrides the class of the receiver
+func (g *skGen) newFunc(pkg *skPkg, name string, fd *ast.FuncDecl, recvClass string) *skFunc {
+	rv, rt := skRecv(fd)
+	f := &skFunc{name: name, recv: rv, class: map[string]string{}, errVars: map[string]bool{},
+		inherit: map[string][]string{}, events: g.events, tracked: g.tracked, typeName: pkg.typeNames,
+		nonNil: map[string]bool{}, decls: pkg.decls, g: g, self: map[string]bool{}, boolVars: map[string]string{}}
+	f.hasErr = skHasErrResult(fd.Type)
+	if rv != "" {
+		if recvClass == "" {
+			recvClass = skelTypeClass[rt]
+		}
+		f.class[rv] = recvClass
+	}
+	if fd.Type.Params != nil {
+		for _, p := range fd.Type.Params.List {
+			for _, n := range p.Names {
+				if c := skTypeClassOf(p.Type); c != "" {
+					f.class[n.Name] = c
+				}
+				if id, ok := p.Type.(*ast.Ident); ok && id.Name == "error" {
+					f.errVars[n.Name] = true
+				}
+			}
+		}
+	}
+	return f
+}
+
+func (f *skFunc) pkgOf() *skPkg { return &skPkg{decls: f.decls, typeNames: f.typeName} }
+
+// follow: the call c of the untracked same-package function fd (key = "Class.method" or "name")
+func (f *skFunc) follow(key, recvClass string, fd *ast.FuncDecl, c *ast.CallExpr) []skNode {
+	g := f.g
+	// parameter names in order
+	var params []*ast.Ident
+	var ptypes []ast.Expr
+	if fd.Type.Params != nil {
+		for _, p := range fd.Type.Params.List {
+			for _, n := range p.Names {
+				params = append(params, n)
+				ptypes = append(ptypes, p.Type)
+			}
+			if len(p.Names) == 0 {
+				params = append(params, nil)
+				ptypes = append(ptypes, p.Type)
+			}
+		}
+	}
+	// classes that only the arguments know, and parameters that stand for the caller's action
+	extra := map[string]string{}
+	self := map[string]bool{}
+	var tag []string
+	for i, a := range c.Args {
+		ac := f.classOf(a)
+		pi := i
+		if pi >= len(params) {
+			pi = len(params) - 1 // the variadic tail
+		}
+		variadic := false
+		if pi >= 0 {
+			_, variadic = ptypes[pi].(*ast.Ellipsis)
+		}
+		if pi < 0 || params[pi] == nil || variadic || i >= len(params) {
+			if ac != "" {
+				return []skNode{skUnknown("%s passed to %s (unnamed or variadic parameter)", ac, key)}
+			}
+			continue
+		}
+		if ac != "" && skTypeClassOf(ptypes[i]) == "" {
+			extra[params[i].Name] = ac
+			tag = append(tag, params[i].Name+"="+ac)
+		}
+		if id, ok := a.(*ast.Ident); ok && f.isSelf(id.Name) && skelActionClass[ac] {
+			self[params[i].Name] = true
+		}
+	}
+	inst := key
+	if recvClass != "" && !strings.HasPrefix(key, recvClass+".") {
+		tag = append([]string{"recv=" + recvClass}, tag...)
+	}
+	if len(tag) > 0 {
+		inst += "[" + strings.Join(tag, ",") + "]"
+	}
+	if !g.done[inst] {
+		if _, inProgress := g.inst[inst]; !inProgress {
+			g.inst[inst] = nil // recursion guard: a call met while translating refers to the entry by name
+			cf := g.newFunc(f.pkgOf(), inst, fd, recvClass)
+			for n, cl := range extra {
+				cf.class[n] = cl
+			}
+			for n := range self {
+				cf.self[n] = true
+			}
+			body := skDropBranches(skSimplify(cf.block(fd.Body.List)))
+			g.inst[inst] = body
+			g.done[inst] = true
+			g.order = append(g.order, inst)
+			if cf.retClass != "" && !cf.retBad {
+				g.summ[inst] = skSummary{cf.retClass, cf.retInh}
+			}
+		}
+	}
+	g.callInst[c] = inst
+	if g.done[inst] && !skHasCall(g.inst[inst]) {
+		return nil // no effect anywhere below: like an ignored call
+	}
+	var out []skNode
+	if m := f.errArgMarker(key, c); m != nil {
+		out = append(out, *m)
+	}
+	return append(out, skNode{Op: "Fn", A: inst})
+}
+
+// closure: a function literal invoked where it stands, sharing the variables of f
+func (f *skFunc) closure(fl *ast.FuncLit) []skNode {
+	savedErr := f.hasErr
+	f.hasErr = skHasErrResult(fl.Type)
+	body := skDropBranches(skSimplify(f.block(fl.Body.List)))
+	f.hasErr = savedErr
+	if !skHasCall(body) {
+		if skHasReturn(body) {
+			return nil // the literal's returns end the literal only
+		}
+		return body
+	}
+	if !skHasReturn(body) {
+		return body // no return inside: the statements simply run here
+	}
+	f.lits++
+	inst := fmt.Sprintf("%s$%d", f.name, f.lits)
+	f.g.inst[inst] = body
+	f.g.done[inst] = true
+	f.g.order = append(f.g.order, inst)
+	return []skNode{{Op: "Fn", A: inst}}
+}
+
 // ---- driver ----------------------------------------------------------------------------------------
 
 func skRecv(fd *ast.FuncDecl) (recvVar, recvType string) {
@@ -1021,6 +1381,45 @@ func skRecv(fd *ast.FuncDecl) (recvVar, recvType string) {
 	return
 }
 
+// skLoadPkg: every function declaration and type name of the non-test Go files of a directory
+func skLoadPkg(repo, dir string) (*skPkg, error) {
+	ents, err := os.ReadDir(filepath.Join(repo, dir))
+	if err != nil {
+		return nil, err
+	}
+	pk := &skPkg{decls: map[string]*ast.FuncDecl{}, typeNames: map[string]bool{}}
+	for _, e := range ents {
+		n := e.Name()
+		if e.IsDir() || !strings.HasSuffix(n, ".go") || strings.HasSuffix(n, "_test.go") || strings.HasPrefix(n, "zz_verif_") {
+			continue
+		}
+		af, _, err := parseFile(repo, filepath.Join(dir, n))
+		if err != nil {
+			return nil, err
+		}
+		for _, d := range af.Decls {
+			switch v := d.(type) {
+			case *ast.GenDecl:
+				if v.Tok == token.TYPE {
+					for _, sp := range v.Specs {
+						pk.typeNames[sp.(*ast.TypeSpec).Name.Name] = true
+					}
+				}
+			case *ast.FuncDecl:
+				if v.Body == nil {
+					continue
+				}
+				if v.Recv == nil {
+					pk.decls[v.Name.Name] = v
+				} else if _, rt := skRecv(v); rt != "" {
+					pk.decls[rt+"."+v.Name.Name] = v
+				}
+			}
+		}
+	}
+	return pk, nil
+}
+
 func genActionSkeleton(repo string) (string, error) {
 	hf, _, err := parseFile(repo, "pkg/release/v1/hook.go")
 	if err != nil {
@@ -1034,25 +1433,18 @@ func genActionSkeleton(repo string) (string, error) {
 	if len(events) == 0 {
 		return "", fmt.Errorf("no HookEvent constants found")
 	}
-	tracked := map[string]bool{}
+	g := &skGen{events: events, tracked: map[string]bool{}, pkgs: map[string]*skPkg{}, inst: map[string][]skNode{}, done: map[string]bool{}, callInst: map[*ast.CallExpr]string{}, summ: map[string]skSummary{}}
 	for _, t := range skelTracked {
 		for _, n := range t.Funcs {
-			tracked[n] = true
+			g.tracked[n] = true
 		}
-	}
-	// every function of the tracked files, for the parameter types of callees
-	allDecls := map[string]*ast.FuncDecl{}
-	for _, t := range skelTracked {
-		af, _, err := parseFile(repo, t.File)
-		if err != nil {
-			return "", err
-		}
-		for _, d := range af.Decls {
-			if fd, ok := d.(*ast.FuncDecl); ok && fd.Body != nil {
-				if _, rt := skRecv(fd); rt != "" {
-					allDecls[rt+"."+fd.Name.Name] = fd
-				}
+		dir := filepath.Dir(t.File)
+		if g.pkgs[dir] == nil {
+			pk, err := skLoadPkg(repo, dir)
+			if err != nil {
+				return "", err
 			}
+			g.pkgs[dir] = pk
 		}
 	}
 	var b strings.Builder
@@ -1060,67 +1452,35 @@ func genActionSkeleton(repo string) (string, error) {
 	b.WriteString("(* effect skeletons of pkg/action/{install,upgrade,rollback,uninstall,history,hooks,action}.go\n   and pkg/storage/storage.go; see harness/cmd/hx/gentables_skel.go *)\n")
 	b.WriteString("Definition skeleton : table :=\n  [ ")
 	first := true
+	emit := func(name string, body []skNode) {
+		if !first {
+			b.WriteString(";\n    ")
+		}
+		first = false
+		b.WriteString("(" + hx.CoqStr(name) + ",\n      ")
+		skPrintBlock(&b, body, "      ")
+		b.WriteString(")")
+	}
 	for _, t := range skelTracked {
-		af, _, err := parseFile(repo, t.File)
-		if err != nil {
-			return "", err
-		}
-		typeNames := map[string]bool{}
-		for _, d := range af.Decls {
-			if gd, ok := d.(*ast.GenDecl); ok && gd.Tok == token.TYPE {
-				for _, sp := range gd.Specs {
-					typeNames[sp.(*ast.TypeSpec).Name.Name] = true
-				}
-			}
-		}
-		decls := map[string]*ast.FuncDecl{}
-		for _, d := range af.Decls {
-			if fd, ok := d.(*ast.FuncDecl); ok && fd.Body != nil {
-				_, rt := skRecv(fd)
-				if rt != "" {
-					decls[rt+"."+fd.Name.Name] = fd
-				}
-			}
-		}
+		pk := g.pkgs[filepath.Dir(t.File)]
 		for _, name := range t.Funcs {
-			if !first {
-				b.WriteString(";\n    ")
-			}
-			first = false
 			var body []skNode
-			fd := decls[name]
+			// a tracked function is looked for in the whole package: moving it to another file is harmless
+			fd := pk.decls[name]
 			if fd == nil {
-				body = []skNode{skUnknown("function %s not found in %s", name, t.File)}
+				body = []skNode{skUnknown("function %s not found in %s", name, filepath.Dir(t.File))}
 			} else {
-				rv, rt := skRecv(fd)
-				f := &skFunc{name: name, recv: rv, class: map[string]string{}, errVars: map[string]bool{},
-					inherit: map[string][]string{}, events: events, tracked: tracked, typeName: typeNames, nonNil: map[string]bool{}, decls: allDecls}
-				if rs := fd.Type.Results; rs != nil && len(rs.List) > 0 {
-					if id, ok := rs.List[len(rs.List)-1].Type.(*ast.Ident); ok && id.Name == "error" {
-						f.hasErr = true
-					}
-				}
-				if rv != "" {
-					f.class[rv] = skelTypeClass[rt]
-				}
-				if fd.Type.Params != nil {
-					for _, p := range fd.Type.Params.List {
-						for _, n := range p.Names {
-							if c := skTypeClassOf(p.Type); c != "" {
-								f.class[n.Name] = c
-							}
-							if id, ok := p.Type.(*ast.Ident); ok && id.Name == "error" {
-								f.errVars[n.Name] = true
-							}
-						}
-					}
-				}
-				body = skSimplify(f.block(fd.Body.List))
-				body = skDropBranches(body)
+				f := g.newFunc(pk, name, fd, "")
+				body = skDropBranches(skSimplify(f.block(fd.Body.List)))
 			}
-			b.WriteString("(" + hx.CoqStr(name) + ",\n      ")
-			skPrintBlock(&b, body, "      ")
-			b.WriteString(")")
+			emit(name, body)
+		}
+	}
+	// the followed callees, by name
+	sort.Strings(g.order)
+	for _, inst := range g.order {
+		if skHasCall(g.inst[inst]) {
+			emit(inst, g.inst[inst])
 		}
 	}
 	b.WriteString(" ].\n")
